@@ -88,6 +88,29 @@ def WF (t : List Tok) : Prop := scanWFFrom false t = some false
 instance (t : List Tok) : Decidable (WFL t) := by unfold WFL; infer_instance
 instance (t : List Tok) : Decidable (WF t) := by unfold WF; infer_instance
 
+/-- The token list ends with `b E2` or `b E2, b 80` (a proper marker prefix). -/
+def dangT (t : List Tok) : Bool :=
+  match t.reverse with
+  | .b 0xE2 :: _ => true
+  | .b 0x80 :: .b 0xE2 :: _ => true
+  | _ => false
+
+/-- `t` without its trailing marker tokens. -/
+def coreT (t : List Tok) : List Tok := (t.reverse.dropWhile Tok.isMarker).reverse
+
+/-- After removing any trailing marker tokens, what remains does not end in a
+proper marker prefix: appending bytes, or eliding a trailing delimiter, can
+never assemble a marker across the boundary. -/
+def goodT (t : List Tok) : Bool := !dangT (coreT t)
+
+/-- What the library hands out as a redactable (and accepts back in raw mode):
+well-formed, line-safe, closed, with a solid end. Every output of the model
+is `Obtainable` (`Props/C01`). -/
+def Obtainable (p : List Byte) : Prop :=
+  goodT (tokenize p) = true ∧ scan (tokenize p) = some false
+
+instance (p : List Byte) : Decidable (Obtainable p) := by unfold Obtainable; infer_instance
+
 /-! Byte-level functions: conjugation with `tokenize`/`untok`. -/
 
 def stripMarkers (l : List Byte) : List Byte := untok (stripT (tokenize l))
